@@ -19,9 +19,10 @@ false (`asis_mutable_upload_counterexample`, `asis_existing_child_counterexample
 | "changes nothing on the grid" | part of the four theorems (`= g`: no object added, none altered) | share-file snapshot + logical tree, every RO request |
 | node layer: every modifying node method refuses a read-only node before any effect | `node_methods_refuse_readonly`, `move_child_to_needs_both_write_keys` (+ `or_guard_counterexample`: the seeded De Morgan slip C41-b) | dirnode.py / mutable/filenode.py guards transcribed; corpus cases C41-b/* |
 | web route `ReplaceMeMixin` (PUT / POST t=upload with format=sdmf/mdmf, new name or existing immutable child) | `mutable_format_upload_refused` (+ the two `asis_*` counterexamples: repaired defect 9a727df, seeded C41-c) | corpus cases fix-9a727df/*, C41-c/* |
+| the directory read path: what a read-only view of a directory unpacks (every path lookup, listing, t=json goes through it) carries no write cap, for any stored contents | `readonly_view_unpacks_no_writecap`, `packed_entry_ro_slot_and_roundtrip`, `listing_is_unpack_of_stored_entries` (ties `children` / `getChild?` of the table to it) (+ `authority_blind_cache_counterexample`: seeded C41-e) | function-level: real `_unpack_contents` on a writeable and a read-only node of the same directory vs `unpack` driver line; corpus C41-a/* GETs |
 | the node the gateway builds for a cap has the cap's authority, whatever else is alive in the gateway (node cache) | `node_cache_preserves_authority`, `node_cache_history`, `readcap_never_yields_writeable_node` (+ `aliased_cache_counterexample`: seeded C41-a) | function-level correspondence (`cache` driver line vs `create_node_from_uri` sequences) + corpus C41-a/* |
 | **responses** made through a read-only capability never contain write-caps | `no_writecap_in_ro_response` (t=json, t=info, HTML listing, t=uri, t=readonly-uri), `no_writecap_below_ro` | `caps` driver line vs caps found in real bodies; monitor scans every RO response for write keys |
-| responses of *refused modifying* requests (error pages) | not covered by a theorem (error pages echo the request URL only) | monitor only (write-key scan of every response body) |
+| responses of *refused modifying* requests (error pages) | `refused_response_shows_only_request_caps` (the body shows only cap strings of the request URL: Twisted's 405 page; nothing otherwise) | every cap string found in the body of every refused response vs the ` caps=` field of the `serve` driver line; write-key scan |
 | deep-check / manifest / check&repair, `when_done`, metadata `no-write`, `/uri` unlinked creation, private token area | not covered | check&repair through a read cap of a damaged mutable file: monitor only |
 -/
 namespace Tahoe.C41
@@ -211,6 +212,57 @@ theorem asis_existing_child_counterexample :
     serve true exGrid ⟨1, .read⟩ [5] { meth := .put, t := .none, mutableFmt := true } = (exGrid, .err .notWriteable) := by
   decide
 
+/-! ### the directory read path (`_unpack_contents`) -/
+
+/-- **`readonly_view_unpacks_no_writecap`**: whatever a directory's serialized contents are — any names, any
+`rwcapdata`, as long as the `ro_uri` slots hold no write caps (which `_pack_normalized_children` guarantees,
+next theorem) — every child a **read-only view** unpacks is a node without the write key: it has no
+`get_write_uri()`, and every cap string the renderers would show for it is a read or verify cap. -/
+theorem readonly_view_unpacks_no_writecap (g : Grid) (es : List Entry) (hro : ∀ e ∈ es, e.ro.auth ≠ .write) :
+    ∀ x ∈ unpackContents g false es, x.2.w = false ∧ getWriteUri x.2 = none ∧ ∀ c ∈ capFields x.2, c.auth ≠ .write := by
+  intro x hx
+  simp only [unpackContents, List.mem_map] at hx
+  obtain ⟨e, he, rfl⟩ := hx
+  have hw := unpackChild_ro g e (hro e he)
+  exact ⟨hw, by simp [getWriteUri, hw], capFields_ro _ hw⟩
+
+/-- what the code writes: the `ro_uri` slot of a packed entry is never a write cap, and a writeable view gets
+back exactly the node that was packed (a read-only view gets its read-only twin) -/
+theorem packed_entry_ro_slot_and_roundtrip (g : Grid) (n : Nat) (child : Handle)
+    (hc : child.w = true → isMutableAt g child.addr = true) :
+    (packChild n child).ro.auth ≠ .write ∧ unpackChild g true (packChild n child) = child ∧
+    unpackChild g false (packChild n child) = ⟨child.addr, false⟩ := by
+  obtain ⟨a, w⟩ := child
+  cases w
+  · simp [packChild, unpackChild, capHandle]
+  · have := hc rfl
+    simp_all [packChild, unpackChild, capHandle]
+
+/-- composed with the web table: the children the listing renderers and the path traversal work with
+(`children`, `getChild?`) *are* `_unpack_contents` of the stored entries under the authority of the view -/
+theorem listing_is_unpack_of_stored_entries (g : Grid) (h : Handle) :
+    children g h = (unpackContents g h.w (storedEntries g h.addr)).map (·.2) :=
+  children_eq_unpack g h
+
+/-- directory 1 stores two write caps (names 6, 7); a read-only view unpacks none, a writeable view both -/
+example : (unpackContents exGrid false (storedEntries exGrid 1)).map (fun x => (x.1, x.2.w)) = [(5, false), (6, false), (7, false)] ∧
+    (unpackContents exGrid true (storedEntries exGrid 1)).map (fun x => (x.1, x.2.w)) = [(5, false), (6, true), (7, true)] ∧
+    (∀ e ∈ storedEntries exGrid 1, e.ro.auth ≠ .write) := by decide
+
+/-- NOT model code: the read path of the seeded change C41-e — unpacked children are cached under a key made of
+the directory and its serialized contents, *without* the authority of the view that unpacked them -/
+def unpackCached (g : Grid) (cache : List (List Entry × List (Nat × Handle))) (writeable : Bool) (es : List Entry) :
+    List (Nat × Handle) × List (List Entry × List (Nat × Handle)) :=
+  match cache.find? (fun c => c.1 == es) with
+  | some c => (c.2, cache)
+  | none => (unpackContents g writeable es, (es, unpackContents g writeable es) :: cache)
+
+/-- after a writeable view has read the directory, a read-only view is served writeable children -/
+theorem authority_blind_cache_counterexample :
+    let afterRw := (unpackCached exGrid [] true (storedEntries exGrid 1)).2
+    ((unpackCached exGrid afterRw false (storedEntries exGrid 1)).1.map (fun x => x.2.w)) = [false, true, true] := by
+  decide
+
 /-! ### the gateway's node cache -/
 
 /-- `NodeMaker.create_from_cap`: as long as every cached node is the one its own key builds, the node
@@ -282,6 +334,24 @@ theorem no_writecap_in_ro_response (g : Grid) (h : Handle) (hw : h.w = false) :
     simp only [renderReadonlyUri, List.mem_singleton] at hc
     subst hc
     simp [getReadonlyUri]
+
+/-- **`refused_response_shows_only_request_caps`**: the body of a refused request shows no cap string that was
+not in the request URL itself; so a request whose URL carries no write cap (read-only / verify root cap, no
+write cap in `uri=` / `to_dir=`) gets an error page without any write cap. -/
+theorem refused_response_shows_only_request_caps (c : Cap) (r : Req) (e : Err) :
+    (∀ x ∈ refusedBodyCaps c r e, x ∈ requestUrlCaps c r) ∧
+    ((∀ x ∈ requestUrlCaps c r, x.auth ≠ .write) → ∀ x ∈ refusedBodyCaps c r e, x.auth ≠ .write) := by
+  have h1 : ∀ x ∈ refusedBodyCaps c r e, x ∈ requestUrlCaps c r := by
+    intro x hx
+    unfold refusedBodyCaps at hx
+    split at hx
+    · exact hx
+    · cases hx
+  exact ⟨h1, fun h x hx => h x (h1 x hx)⟩
+
+example : refusedBodyCaps ⟨1, .verify⟩ { meth := .post, t := .uri, name := some 3, cap := some ⟨2, .read⟩ } .notAllowed
+      = [⟨1, .verify⟩, ⟨2, .read⟩] ∧
+    refusedBodyCaps ⟨1, .read⟩ { meth := .post, t := .mkdir, name := some 3 } .notWriteable = [] := by decide
 
 /-- the hypothesis propagates along any path below a read-only node -/
 theorem no_writecap_below_ro (g : Grid) (h c : Handle) (path : List Nat) (hw : h.w = false)
